@@ -25,7 +25,16 @@ HAND_PAIRS = [
     ('<p>x</p><object data="o"><p>fallback</p></object><p>after one</p><p>after two</p>', '<p>x</p><p>after one</p><p>after two</p>'),
     ('<del class="wm-diff is-collapsed"><ul><li>was</li></ul></del><p>same</p>', '<ins class="wm-diff is-focused"><table><tbody><tr><td>now</td></tr></tbody></table></ins><p>same</p>'),
     ('<script>first();</script><style>a{}</style><div><h1>T</h1><p>x</p></div>', '<script>first();</script><style>a{}</style><div><h1>T</h1><p>x y</p></div>'),
+    ('<html><head><title>t</title></head><body><script id="gtm">first();</script><style>a{}</style><div><h1>T</h1><p>x</p></div></body></html>',
+     '<html><head><title>t</title></head><body><script id="gtm">first();</script><style>a{}</style><div><h1>T</h1><p>x y</p></div></body></html>'),
+    ('<p>See <a href="http://example.com/x">the report</a> today</p>', '<p>See <a>the report</a>http://example.com/x today</p>'),
+    ('<p><a>the report</a> /page.html</p>', '<p><a href="/page.html">the report</a> </p>'),
+    ('<body><style>a{}</style>lead text <p>x</p></body>', '<body><style>a{}</style>lead text <p>x</p> more</body>'),
 ]
+
+
+LEADS = ['<script id="gtm">lead();</script>', '<style>.lead { color: red }</style>',
+         '<script src="tm.js"></script><style>b > i {}</style>', '<style media="print">p{}</style><script>var q = 1 < 2;</script>']
 
 
 def documents(rng, n, rich=True):
@@ -34,6 +43,11 @@ def documents(rng, n, rich=True):
     for _ in range(n):
         g = htmlgen.Gen(rng, rich)
         a, b = htmlgen.pair(rng, rich)
+        if rng.random() < 0.12:
+            # pages whose body opens with embedded script/style (tag managers, inline styles), mostly unchanged
+            lead = rng.choice(LEADS)
+            a = lead + a
+            b = (lead if rng.random() < 0.8 else rng.choice(LEADS)) + b
         k = rng.random()
         if k < 0.7:
             out.append((g.document(a), g.document(b)))
@@ -50,9 +64,31 @@ def big_page(n, variant=0):
     return ''.join('<section><h2>h %d</h2><p>para <b>%d</b></p><a name="x%d"></a> tail %d</section>' % (i, i, i, i) for i in range(n))
 
 
-def render(a, b, include='all', url_rules='jsessionid'):
+import contextlib
+
+
+@contextlib.contextmanager
+def spacer_cap(cap):
+    """run the implementation with another value of the module constant MAX_SPACERS"""
     import web_monitoring_diff.html_render_diff as h
-    return h.html_diff_render(a, b, include=include, url_rules=url_rules)
+    saved = h.MAX_SPACERS
+    if cap is not None:
+        h.MAX_SPACERS = cap
+    try:
+        yield
+    finally:
+        h.MAX_SPACERS = saved
+
+
+def render(a, b, include='all', url_rules='jsessionid', max_spacers=None):
+    import web_monitoring_diff.html_render_diff as h
+    saved = h.MAX_SPACERS
+    if max_spacers is not None:
+        h.MAX_SPACERS = max_spacers
+    try:
+        return h.html_diff_render(a, b, include=include, url_rules=url_rules)
+    finally:
+        h.MAX_SPACERS = saved
 
 
 def source_body(text):
